@@ -145,7 +145,7 @@ CHECKS = {
   note=("Trusted: Lean kernel; extract.py probing of writes/reads sets on sample values; third-party codecs json / pickle / pandas / polars / base64 (hypotheses of the theorems); the text and bytes codecs are LiQuer's own and proved (c11_text_codec_law, c11_bytes_codec_law, c11_own_roundtrip: strict UTF-8, no hypothesis left)."),
  ),
  "C20": dict(
-  text=("c20_gate for all enable/disable/register histories; c20_wire (unquote . quote = id for every text, from the C03 lemmas); serve never 2xx on "
+  text=("c20_gate (+ _disabled, _enabled, _length, _register_neutral) for all enable/disable/register histories; c20_wire (unquote . quote = id for every text, from the C03 lemmas); serve never 2xx on "
         "failure; c20_routes by decide over the regenerated route table and RemoteStore request table; endpoint histories refine library calls under "
         "ReadOnlyLaw. Correspondence through the Flask test client (client-side quoting; requests' own URL preparation incl. params) for queries, store/cache "
         "endpoint histories, all gate histories <= 5 and RemoteStore against a served store (MemoryStore, and a directory store for every fourth history). Partial: Flask/werkzeug/WSGI are third-party parameters."),
